@@ -159,7 +159,7 @@ def check_frame(self, st, base, modifies, sid, old_next_ref, env=None):
         allowed = []
         whole = False
         for loc in locs:
-            if loc[0] == "all" and k in type_heap_keys(loc[1]):
+            if loc[0] == "all" and k in self.all_keys_of(loc[1]):
                 whole = True
             elif loc[0] == "contents":
                 v = loc[1]
@@ -576,6 +576,18 @@ def st_If(self, s, st):
             s_f.assume(z3.Not(tv))
             yield from self.ex_block(s.body, s_t)
             yield from self.ex_block(s.orelse, s_f)
+
+
+def st_ImportFrom(self, s, st):
+    for a in s.names:
+        st.env[a.asname or a.name] = FuncRef(a.name)
+    yield Outcome("normal", st)
+
+
+def st_Import(self, s, st):
+    for a in s.names:
+        st.env[a.asname or a.name.split(".")[0]] = PyConst(("module", a.name))
+    yield Outcome("normal", st)
 
 
 def st_With(self, s, st):
